@@ -65,7 +65,8 @@ def search(payload):
     from predicate.standard_predicates import gt_p
     from predicate.standard_predicates import eq_true_p, eq_false_p, eq_p
     plain = {id(eq_true_p): lambda v: v == True, id(eq_false_p): lambda v: v == False}      # noqa: E712  (the plain-Python meaning of the exported names)
-    far = [ge_p("a"), ge_p("b"), gt_p(""), gt_p("a"), ge_p("A"), ge_p("0"), eq_true_p, eq_false_p, eq_p(True), eq_p(1), eq_p(0)]
+    far = [ge_p("a"), ge_p("b"), gt_p(""), gt_p("a"), ge_p("A"), ge_p("0"), eq_true_p, eq_false_p, eq_p(True), eq_p(1), eq_p(0),
+           ge_p(3), gt_p(3), ge_p(-7), ge_p(1000), ge_p(2.5), gt_p(-0.5)]
     plain[id(far[8])], plain[id(far[9])], plain[id(far[10])] = (lambda v: v == True), (lambda v: v == 1), (lambda v: v == 0)    # noqa: E712
     for p in far:
         for seed in range(2):
@@ -90,6 +91,27 @@ def search(payload):
                     fails.append({"p": repr(p), "p_structure": skey(p), "position": i, "value": repr(v), "p(value)": (repr(r) if k == "ok" else f"raises {r}"),
                                   "library_says": repr(call(p, v))})
                     break
+    # quantifiers nested 8 deep: slow (seconds per value), so only the first value of one stream each is read
+    from predicate.standard_predicates import all_p as _all, any_p as _any
+    for outer, leaf in ((_all, is_int_p), (_all, ge_p(3)), (_any, is_str_p)):
+        p = leaf
+        for _ in range(8):
+            p = outer(p)
+        if timeouts >= 3:
+            break
+        random.seed(int(payload["seed"]) + 2)
+        try:
+            vals, err = g.take(GENF(p), 2, seconds=90.0)
+        except (ValueError, TypeError):
+            continue
+        if err == "timeout":
+            timeouts += 1
+        for i, v in enumerate(vals):
+            n += 1
+            k, r = call(p, v)
+            if k != "ok" or r:
+                fails.append({"p": repr(p), "p_structure": skey(p), "position": i, "value": repr(v)[:300], "p(value)": (repr(r) if k == "ok" else f"raises {r}")})
+                break
     w14 = ge_p(3) & is_int_p
     random.seed(1)
     vals, _ = g.take(GENF(w14), 8)
